@@ -1,4 +1,4 @@
-import SgVerif.C10.Inv2
+import SgVerif.C10.Hold3
 /-
 C10 — resource failures are reported to every live participant.  Property theorems (nothing else in this file).
 All theorems are over arbitrary states of the transition system of Model.lean (any number of hosts, links, actors,
@@ -188,8 +188,8 @@ iteration; or an assertion of the kernel fired.  Nothing is assumed on the rest 
 activities, other pending failures, wait_any sets, dying actors.
 Composition of `linkOff_fails_every_user` / `hostOff_fails_every_user`, the kill loop of `HostImpl::turn_off`
 (`ActorImpl::exit` of every actor of the host, which may itself finish `k`), and `handle_ended_reports_every_failed_action`.
-Not covered (see NOTES): a communication whose *peer's* host fails — there the action is failed by the dying peer's
-`exit()`; `failure_reaches_all_waiters_comm` covers the `finish` that follows, the composition is not proved. -/
+The third row of the spec table — a communication whose *peer's* host fails, where the action is failed by the dying peer's
+`exit()` — is `failure_reaches_all_waiters_peer_host_partial` below. -/
 theorem failure_reaches_all_waiters (s : St) (e : Ev) (k a : Nat) (hk : k < s.nActs)
     (hrun : (s.acts k).action = some .started) (hit : HitBy s k e)
     (ha : Answerable s a) (hs : Survives s a e) (hm : a ∈ (s.acts k).simcalls) :
@@ -228,6 +228,58 @@ theorem failure_reaches_all_waiters (s : St) (e : Ev) (k a : Nat) (hk : k < s.nA
         rw [h2]
         have := done_of_res (a := a) (k := k) (r := .exc .host) (max (t4.nActs + 1) t4.failedQ.length) e4 r4 (Nat.le_max_right _ _)
         exact this
+
+/-- **failure_reaches_all_waiters, peer's host (run level).**  The third row of the spec table: a RUNNING communication `k`
+(live action) held by a live actor `b` of host `h` — it is in `b`'s `activities_`: `b` is its sender or receiver, blocked on
+it or not — and `h` is turned off.  For EVERY state: every answerable issuer `a` registered on `k` that lives on another
+host (the peer, a third party, a wait_any) has been answered by the end of the maestro iteration (`turn_off` +
+`handle_ended_actions`) — by `k` with NetworkFailureException, or by another activity of its wait_any finished in that
+iteration — or an assertion fired.  Composition through the kill loop of `HostImpl::turn_off`: the kills of the other actors
+of the host leave `k` held or doom it, `b`'s own `exit()` cancels it (first loop: finished on the spot; second loop: FAILED and
+queued), `handle_ended_actions` finishes it.
+`_partial`: the hypothesis `Private s h b` (no other actor of `h` waits on an activity on which `b` is registered) is exactly what
+the finding `host-off-marks-peer-dying-without-exit` makes necessary on the current code: without it `b` can be marked dying by
+the `finish` of a co-hosted actor's synchro and then skipped by `turn_off`, so that `k` is never cancelled and `a` is told at
+`k`'s natural completion date at best.  With the proposed fix the hypothesis can be dropped.  (Detached sends — not in anybody's
+`activities_` — and `Comm::sendto` comms of maestro's list are not covered by this statement.) -/
+theorem failure_reaches_all_waiters_peer_host_partial (s : St) (h k a b : Nat) (hon : s.hostOn h = true)
+    (hb : b < s.nActors) (hbh : (s.actors b).host = h) (hbe : (s.actors b).ended = false)
+    (hbw : (s.actors b).wannadie = false) (hheld : k ∈ (s.actors b).activities) (hp : Private s h b)
+    (hk : (s.acts k).kind = .comm) (hrun : (s.acts k).state = .running) (hact : (s.acts k).action = some .started)
+    (ha : Answerable s a) (hah : (s.actors a).host ≠ h) (hm : a ∈ (s.acts k).simcalls) :
+    DoneR s (run s [.hostOff h, .handleEnded]) a k (.exc .net) := by
+  show DoneR s (step (step s (.hostOff h)) .handleEnded) a k _
+  by_cases hcr : s.crashed = true
+  · left; simp [step, hcr]
+  · have h1 : step s (.hostOff h) = hostOff s h := by simp [step, hcr]
+    rw [h1, hostOff_eq s h hon]
+    have ha1 : Answerable ({ s with hostOn := upd s.hostOn h false } : St) a := by
+      obtain ⟨x1, x2, x3⟩ := ha
+      refine ⟨x1, ?_, x3⟩
+      simp [upd, hah, x2]
+    have p1 : HoldS ({ s with hostOn := upd s.hostOn h false } : St) b a k := ⟨ha1, hm, hk, hact, hrun, hheld⟩
+    have ho1 : HolderOK ({ s with hostOn := upd s.hostOn h false } : St) h b := ⟨hbh, hbe, hbw, hp⟩
+    obtain ⟨e4, r4⟩ := res_hostOff_comm ({ s with hostOn := upd s.hostOn h false } : St) h k a b (by simp [upd]) hb p1 ho1
+    generalize maestroPhase h (killPhase h (cpuPhase h ({ s with hostOn := upd s.hostOn h false } : St))) = t4 at e4 r4
+    by_cases hc2 : t4.crashed = true
+    · left; simp [step, hc2]
+    · have h2 : step t4 .handleEnded = handleEndedAll t4 := by simp [step, hc2]
+      rw [h2]
+      have := done_of_res (a := a) (k := k) (r := .exc .net) (max (t4.nActs + 1) t4.failedQ.length) e4 r4 (Nat.le_max_right _ _)
+      exact this
+
+/-- non-vacuity: the textbook case — sender (actor 0, host 0) and receiver (actor 1, host 1) in a rendez-vous, host 0 fails:
+the receiver meets the hypotheses with the sender as holder, and is answered NetworkFailureException in that iteration -/
+example :
+    let s := run (init [0, 1] (fun _ _ => [0])) [.isendWait 0 0, .irecvWait 1 0]
+    s.hostOn 0 = true ∧ 0 < s.nActors ∧ (s.actors 0).host = 0 ∧ (s.actors 0).ended = false ∧ (s.actors 0).wannadie = false ∧
+    0 ∈ (s.actors 0).activities ∧ (s.acts 0).kind = .comm ∧ (s.acts 0).state = .running ∧
+    (s.acts 0).action = some .started ∧ Answerable s 1 ∧ (s.actors 1).host ≠ 0 ∧ 1 ∈ (s.acts 0).simcalls ∧
+    newIn s (run s [.hostOff 0, .handleEnded]) (.answer 1 (.exc .net) 0) := by
+  refine ⟨by decide, by decide, by decide, by decide, by decide, by decide, by decide, by decide, by decide, ?_, by decide,
+    by decide, ?_⟩
+  · unfold Answerable; decide
+  · unfold newIn; decide
 
 /-! ### killed_on_host_off
 Full-strength statement: `s.hostOn h → a < s.nActors → (s.actors a).host = h → ¬ (s.actors a).ended →
